@@ -58,7 +58,8 @@ fn expected(oracle: &mut Oracle, t: &Target, q: &Query) -> Option<Value> {
 /// (1) the configuration lattice.
 fn configs<T: HLabel>(ctx: &mut Ctx, case: &StaticCase, built: &Built<T>, oracle: &mut Oracle, rng: &mut Rng, external: bool, focus: Option<&Value>) {
     let cj = case.to_json();
-    let backends = all_backends(ctx, external);
+    // the harness's own DPLL backend is exponential on connected frameworks of dozens of arguments: small ones only
+    let backends: Vec<Backend> = all_backends(ctx, external).into_iter().filter(|b| !(matches!(b, Backend::Dpll) && case.abs.n > 40)).collect();
     let n_comps = case.abs.components().len();
     for t in targets().iter() {
         if t.ty == SolverType::Grounded {
